@@ -336,7 +336,13 @@ class Frame(object):
         # add back the waterfall object.
         waterfall = self.get_waterfall()
         if waterfall is not None:
-            c_frame.waterfall = copy.deepcopy(waterfall)
+            # An open h5 handle (frames loaded from .h5) can't be copied; set it aside
+            h5 = waterfall.container.__dict__.pop('h5', None)
+            try:
+                c_frame.waterfall = copy.deepcopy(waterfall)
+            finally:
+                if h5 is not None:
+                    waterfall.container.h5 = h5
         return c_frame
 
     def __getstate__(self):
